@@ -703,6 +703,86 @@ def table_fuse(body: List[ast.stmt]) -> List[ast.stmt]:
     return body
 
 
+def unprecompute_dicts(fn: ast.FunctionDef) -> int:
+    """PRECOMP-DICT (in place): `D = {k: F(k) for k in K}` (bound once, K a name bound once, no filter), read only as `D[x]` with x the target of a
+    loop `for x in K` / `for i, x in enumerate(K)` over the same K: `D[x]` is F(x) (x is one of the keys the table was built from; F call-free
+    except len(), so evaluating it again is the same value).  Returns the number of tables removed."""
+    nst: Dict[str, int] = {}
+    comp_targets = {id(x) for c in ast.walk(fn) if isinstance(c, ast.comprehension) for x in ast.walk(c.target)}      # scoped to their comprehension
+    for n in ast.walk(fn):
+        if isinstance(n, ast.Name) and isinstance(n.ctx, ast.Store) and id(n) not in comp_targets:
+            nst[n.id] = nst.get(n.id, 0) + 1
+    parents = {}
+    for n in ast.walk(fn):
+        for ch in ast.iter_child_nodes(n):
+            parents[id(ch)] = n
+    done = 0
+    for a in [x for x in ast.walk(fn) if isinstance(x, ast.Assign)]:
+        if not (len(a.targets) == 1 and isinstance(a.targets[0], ast.Name) and nst.get(a.targets[0].id) == 1 and isinstance(a.value, ast.DictComp)):
+            continue
+        D, v = a.targets[0].id, a.value
+        if not (len(v.generators) == 1 and not v.generators[0].ifs and isinstance(v.generators[0].target, ast.Name) and isinstance(v.generators[0].iter, ast.Name)
+                and isinstance(v.key, ast.Name) and v.key.id == v.generators[0].target.id):
+            continue
+        kvar, K = v.key.id, v.generators[0].iter.id
+        if nst.get(K, 0) > 1:
+            continue
+        if any(isinstance(x, (ast.Lambda, ast.Await, ast.Yield, ast.NamedExpr)) or (isinstance(x, ast.Call) and not (isinstance(x.func, ast.Name) and x.func.id == "len"))
+               for x in ast.walk(v.value)):
+            continue
+        # loop variables that range over K
+        over_k = set()
+        for lp in ast.walk(fn):
+            if isinstance(lp, (ast.For, ast.comprehension)):
+                it, tg = lp.iter, lp.target
+                if isinstance(lp, ast.comprehension):
+                    continue
+                if isinstance(it, ast.Name) and it.id == K and isinstance(tg, ast.Name):
+                    over_k.add(tg.id)
+                elif isinstance(it, ast.Call) and isinstance(it.func, ast.Name) and it.func.id == "enumerate" and len(it.args) == 1 and isinstance(it.args[0], ast.Name) \
+                        and it.args[0].id == K and isinstance(tg, (ast.Tuple, ast.List)) and len(tg.elts) == 2 and isinstance(tg.elts[1], ast.Name):
+                    over_k.add(tg.elts[1].id)
+        over_k = {x for x in over_k if nst.get(x, 0) == 1}
+        uses = [n for n in ast.walk(fn) if isinstance(n, ast.Name) and n.id == D and isinstance(n.ctx, ast.Load)]
+        subs = []
+        for u in uses:
+            par = parents.get(id(u))
+            if isinstance(par, ast.Subscript) and par.value is u and isinstance(par.ctx, ast.Load) and isinstance(par.slice, ast.Name) and par.slice.id in over_k:
+                subs.append(par)
+            else:
+                subs = None
+                break
+        if not subs:
+            continue
+        for sub in subs:
+            x = sub.slice.id
+
+            class S(ast.NodeTransformer):
+                def visit_Name(self, n):
+                    return ast.copy_location(ast.Name(x, n.ctx), n) if n.id == kvar else n
+            new = S().visit(copy.deepcopy(v.value))
+            par = parents[id(sub)]
+            for fld, val in ast.iter_fields(par):
+                if val is sub:
+                    setattr(par, fld, new)
+                elif isinstance(val, list):
+                    for i_, e in enumerate(val):
+                        if e is sub:
+                            val[i_] = new
+        # remove the table
+        par = parents.get(id(a))
+        for fld in ("body", "orelse", "finalbody"):
+            lst = getattr(par, fld, None)
+            if isinstance(lst, list) and a in lst:
+                lst.remove(a)
+                if not lst:
+                    lst.append(ast.Pass())
+        done += 1
+    if done:
+        ast.fix_missing_locations(fn)
+    return done
+
+
 def unprecompute_lists(fn: ast.FunctionDef) -> int:
     """PRECOMP-LIST (in place): `L = [F(i) for i in range(len(X) + c)]` (c = 0 or 1, bound once) whose only uses are `zip(P, L)` with P of the
     same length as X (P is X, or X is a comprehension over P without filter) and `L[-1]`:  `for T, l in zip(P, L)` becomes
@@ -1292,7 +1372,89 @@ def module_namedtuples(mod: ast.Module) -> Dict[str, tuple]:
                 out[st.targets[0].id] = tuple(f.value.replace(",", " ").split())
         elif isinstance(st, ast.ClassDef) and any(ast.unparse(b).split(".")[-1] == "NamedTuple" for b in st.bases):
             out[st.name] = tuple(a.target.id for a in st.body if isinstance(a, ast.AnnAssign) and isinstance(a.target, ast.Name))
+        elif isinstance(st, ast.ClassDef) and _is_plain_dataclass(st):
+            # RECORD: a dataclass without a hand-written __init__ / __post_init__ / __setattr__ is its fields in declaration order (ClassVar entries are not fields)
+            out[st.name] = tuple(a.target.id for a in st.body if isinstance(a, ast.AnnAssign) and isinstance(a.target, ast.Name) and "ClassVar" not in ast.unparse(a.annotation))
     return out
+
+
+def _is_plain_dataclass(c: ast.ClassDef) -> bool:
+    deco = any(ast.unparse(d.func if isinstance(d, ast.Call) else d).split(".")[-1] == "dataclass" for d in c.decorator_list)
+    own = {m.name for m in c.body if isinstance(m, ast.FunctionDef)}
+    return deco and not c.bases and not (own & {"__init__", "__post_init__", "__setattr__", "__getattr__", "__getattribute__", "__new__"})
+
+
+PURE_BUILTINS = {"abs", "min", "max", "len", "float", "int", "bool", "round"}
+
+
+def record_members(mod: ast.Module) -> Dict[str, Dict[str, ast.expr]]:
+    """RECORD: for every module-level NamedTuple / plain dataclass: {member: expression over `self`} for its read-only single-return properties
+    (pure built-ins allowed) and its class-level constants (`X: ClassVar[T] = literal`, `X = literal`)"""
+    out: Dict[str, Dict[str, ast.expr]] = {}
+    nts = module_namedtuples(mod)
+    for c in mod.body:
+        if not (isinstance(c, ast.ClassDef) and c.name in nts):
+            continue
+        mem: Dict[str, ast.expr] = {}
+        setters = {ast.unparse(d).split(".")[0] for m in c.body if isinstance(m, ast.FunctionDef) for d in m.decorator_list if ast.unparse(d).endswith(".setter")}
+        for m in c.body:
+            if isinstance(m, (ast.Assign, ast.AnnAssign)) and getattr(m, "value", None) is not None:
+                t = m.targets[0] if isinstance(m, ast.Assign) and len(m.targets) == 1 else getattr(m, "target", None)
+                lit = m.value.operand if isinstance(m.value, ast.UnaryOp) and isinstance(m.value.op, ast.USub) else m.value
+                if isinstance(t, ast.Name) and t.id not in nts[c.name] and isinstance(lit, ast.Constant) and isinstance(lit.value, (int, float, str, bool)):
+                    mem[t.id] = m.value
+            elif isinstance(m, ast.FunctionDef) and any(ast.unparse(d) == "property" for d in m.decorator_list) and m.name not in setters and len(m.args.args) == 1:
+                body = [b for b in m.body if not (isinstance(b, ast.Expr) and isinstance(b.value, ast.Constant))]
+                if len(body) == 1 and isinstance(body[0], ast.Return) and body[0].value is not None \
+                        and not any(isinstance(x, (ast.Lambda, ast.Await, ast.Yield, ast.NamedExpr)) for x in ast.walk(body[0].value)) \
+                        and all(isinstance(x.func, ast.Name) and x.func.id in PURE_BUILTINS for x in ast.walk(body[0].value) if isinstance(x, ast.Call)):
+                    sp = m.args.args[0].arg
+
+                    class S(ast.NodeTransformer):
+                        def visit_Name(self, n):
+                            return ast.copy_location(ast.Name("self", n.ctx), n) if n.id == sp else n
+                    mem[m.name] = S().visit(copy.deepcopy(body[0].value))
+        if mem:
+            out[c.name] = mem
+    return out
+
+
+def subst_record_members(fn: ast.FunctionDef, recs: Dict[str, Dict[str, ast.expr]]) -> ast.FunctionDef:
+    """a local bound once, by `v = R(...)`, to a record: `v.prop` is the property's expression over v, `v.CONST` the class constant"""
+    if not recs:
+        return fn
+    fn = copy.deepcopy(fn)
+    counts: Dict[str, int] = {}
+    kind: Dict[str, str] = {}
+    for a in ast.walk(fn):
+        if isinstance(a, ast.Name) and isinstance(a.ctx, ast.Store):
+            counts[a.id] = counts.get(a.id, 0) + 1
+        if isinstance(a, ast.Assign) and len(a.targets) == 1 and isinstance(a.targets[0], ast.Name) and isinstance(a.value, ast.Call) \
+                and isinstance(a.value.func, ast.Name) and a.value.func.id in recs:
+            kind[a.targets[0].id] = a.value.func.id
+    kind = {v: r for v, r in kind.items() if counts.get(v) == 1}
+    if not kind:
+        return fn
+    for _ in range(4):
+        hit = [False]
+
+        class T(ast.NodeTransformer):
+            def visit_Attribute(self, n):
+                self.generic_visit(n)
+                if isinstance(n.ctx, ast.Load) and isinstance(n.value, ast.Name) and n.value.id in kind and n.attr in recs[kind[n.value.id]]:
+                    v = n.value.id
+                    hit[0] = True
+
+                    class R(ast.NodeTransformer):
+                        def visit_Name(self, m):
+                            return ast.copy_location(ast.Name(v, m.ctx), m) if m.id == "self" else m
+                    return ast.copy_location(R().visit(copy.deepcopy(recs[kind[v]][n.attr])), n)
+                return n
+        fn = T().visit(fn)
+        if not hit[0]:
+            break
+    ast.fix_missing_locations(fn)
+    return fn
 
 
 def module_constants(mod: ast.Module) -> Dict[str, ast.expr]:
@@ -1741,7 +1903,7 @@ class Normaliser:
                     reads_between = {x.id for b in between for x in ast.walk(b) if isinstance(x, ast.Name)}
                     uses = sum(1 for st_ in stmts for x in ast.walk(st_) if isinstance(x, ast.Name) and x.id == nm and isinstance(x.ctx, ast.Load))
                     arg_names = {x.id for x in ast.walk(out[k_def].value) if isinstance(x, ast.Name)}
-                    stores_between = {t.id for b in between for t in b.targets}
+                    stores_between = {t.id for b in between for t in getattr(b, "targets", []) if isinstance(t, ast.Name)}
                     if hg is not None and any(isinstance(n_, ast.Yield) for n_ in ast.walk(hg)) and quiet and uses == 1 and nm not in reads_between \
                             and not (arg_names & stores_between):
                         s = copy.copy(s)
@@ -2357,6 +2519,7 @@ class Normaliser:
     def function(self, fn: ast.FunctionDef) -> ast.FunctionDef:
         out = copy.deepcopy(fn)
         out.body = strip_logging(out.body)
+        unprecompute_dicts(out)                   # PRECOMP-DICT
         out = self.expand_in_tests(out)
         self.caller_names = {n.id for n in ast.walk(fn) if isinstance(n, ast.Name)} | {a.arg for a in ast.walk(fn) if isinstance(a, ast.arg)}
         body = [s for s in out.body if not (isinstance(s, ast.Expr) and isinstance(s.value, ast.Constant) and isinstance(s.value.value, str))]
@@ -3298,9 +3461,8 @@ def unroll_constant_tables(tree: ast.Module) -> int:
             rows = [const_row(e) for e in st.value.elts]
             if all(r is not None for r in rows) and len({len(r) for r in rows}) == 1:
                 tables[st.targets[0].id] = rows
-    if not tables:
-        return 0
     n = [0]
+    name_loads: Dict[str, int] = {}
 
     def fold(node):
         class F(ast.NodeTransformer):
@@ -3333,6 +3495,38 @@ def unroll_constant_tables(tree: ast.Module) -> int:
                 v = getattr(st, fld, None)
                 if isinstance(v, list) and v and all(isinstance(x, ast.stmt) for x in v) and not isinstance(st, (ast.FunctionDef, ast.ClassDef)):
                     setattr(st, fld, conv(v, shadow))
+            # a guard table: `for a, b, ... in ((..row..), ...)` (the display itself, or a local bound to it by the statement just before and read
+            # nowhere else) whose rows are tuples of constants / names / attribute chains, and whose body raises: the hand-written sequence of
+            # guards, one per row (the rows' expressions are read where the loop variables were; nothing in the body stores anything)
+            if isinstance(st, ast.For) and not st.orelse and isinstance(st.target, (ast.Tuple, ast.List)) and all(isinstance(t, ast.Name) for t in st.target.elts) \
+                    and len(st.body) <= 8 and any(isinstance(x, ast.Raise) for b in st.body for x in ast.walk(b)):
+                disp, drop = None, False
+                if isinstance(st.iter, (ast.Tuple, ast.List)):
+                    disp = st.iter
+                elif isinstance(st.iter, ast.Name) and out and isinstance(out[-1], ast.Assign) and len(out[-1].targets) == 1 and isinstance(out[-1].targets[0], ast.Name) \
+                        and out[-1].targets[0].id == st.iter.id and isinstance(out[-1].value, (ast.Tuple, ast.List)) and name_loads.get(st.iter.id, 0) == 1:
+                    disp, drop = out[-1].value, True
+
+                def stable(e):
+                    return isinstance(e, ast.Constant) or isinstance(e, ast.Name) or (isinstance(e, ast.Attribute) and stable(e.value))
+                gbody = _restructure_continue(st.body) if disp is not None else None
+                if disp is not None and gbody is not None and 1 <= len(disp.elts) <= 6 \
+                        and all(isinstance(r, ast.Tuple) and len(r.elts) == len(st.target.elts) and all(stable(x) for x in r.elts) for r in disp.elts) \
+                        and not any(isinstance(x, (ast.Yield, ast.YieldFrom, ast.FunctionDef, ast.Lambda, ast.Break, ast.Continue, ast.Return, ast.NamedExpr)) or
+                                    (isinstance(x, (ast.Name, ast.Attribute, ast.Subscript)) and isinstance(x.ctx, (ast.Store, ast.Del))) for b in gbody for x in ast.walk(b)):
+                    if drop:
+                        out.pop()
+                    names = [t.id for t in st.target.elts]
+                    for row in disp.elts:
+                        m = dict(zip(names, row.elts))
+
+                        class S2(ast.NodeTransformer):
+                            def visit_Name(self, nm):
+                                return ast.copy_location(copy.deepcopy(m[nm.id]), nm) if isinstance(nm.ctx, ast.Load) and nm.id in m else nm
+                        for b in gbody:
+                            out.append(fold(S2().visit(copy.deepcopy(b))))
+                    n[0] += 1
+                    continue
             tname = None
             if isinstance(st, ast.For) and isinstance(st.iter, ast.Name):
                 tname = st.iter.id if (st.iter.id in tables and st.iter.id not in shadow) else local_alias.get(st.iter.id)
@@ -3371,6 +3565,10 @@ def unroll_constant_tables(tree: ast.Module) -> int:
                 if isinstance(x, ast.Name) and isinstance(x.ctx, ast.Store):
                     nst[x.id] = nst.get(x.id, 0) + 1
             local_alias.clear()
+            name_loads.clear()
+            for x in ast.walk(f):
+                if isinstance(x, ast.Name) and isinstance(x.ctx, ast.Load):
+                    name_loads[x.id] = name_loads.get(x.id, 0) + 1
             for a in ast.walk(f):
                 if isinstance(a, ast.Assign) and len(a.targets) == 1 and isinstance(a.targets[0], ast.Name) and nst.get(a.targets[0].id) == 1 \
                         and isinstance(a.value, ast.Name) and a.value.id in tables and a.value.id not in shadow:
@@ -3407,6 +3605,34 @@ def unmatch(tree: ast.Module) -> int:
             if r is False:
                 return False
             return r[0], r[1] + [ast.Assign([ast.Name(pat.name, ast.Store())], copy.deepcopy(subj))]
+        if isinstance(pat, ast.MatchSequence):
+            # PEP 634: the subject is a sequence (not str / bytes), of exactly len(patterns) items -- or at least that many minus the star;
+            # items before the star are indexed from the front, items after it from the back; the star binds a list
+            pats = pat.patterns
+            stars = [i for i, p_ in enumerate(pats) if isinstance(p_, ast.MatchStar)]
+            if len(stars) > 1:
+                return False
+            nfix = len(pats) - len(stars)
+            ln = ast.Call(ast.Name("len", ast.Load()), [copy.deepcopy(subj)], [])
+            tests = [ast.Call(ast.Name("isinstance", ast.Load()), [copy.deepcopy(subj), ast.Tuple([ast.Name("list", ast.Load()), ast.Name("tuple", ast.Load())], ast.Load())], []),
+                     ast.Compare(ln, [ast.GtE() if stars else ast.Eq()], [ast.Constant(nfix)])]
+            binds = []
+            for i, p_ in enumerate(pats):
+                after = len(pats) - 1 - i
+                if isinstance(p_, ast.MatchStar):
+                    if p_.name:
+                        sl = ast.Slice(ast.Constant(i) if i else None, ast.Constant(-after) if after else None, None)
+                        binds.append(ast.Assign([ast.Name(p_.name, ast.Store())],
+                                                ast.Call(ast.Name("list", ast.Load()), [ast.Subscript(copy.deepcopy(subj), sl, ast.Load())], [])))
+                    continue
+                idx = i if (not stars or i < stars[0]) else -(after + 1)
+                r = test_of(p_, ast.Subscript(copy.deepcopy(subj), ast.Constant(idx), ast.Load()))
+                if r is False:
+                    return False
+                if r[0] is not None:
+                    tests.append(r[0])
+                binds += r[1]
+            return ast.BoolOp(ast.And(), tests), binds
         if isinstance(pat, ast.MatchOr):
             parts = [test_of(p_, subj) for p_ in pat.patterns]
             if any(p_ is False or p_[1] or p_[0] is None for p_ in parts):
